@@ -345,6 +345,41 @@ fn gen_next(out: &mut impl Write, id: &mut u64, r: &mut Rng, n: u64, level: u64)
         let i = NextIn { number, start: number * 1000 + r.range(0, 999), len, base: rew / len, rem: rew % len, prev_hr, compact, uncles, ms };
         next_record(out, id, &p, &c, &i, "directed");
     }
+    // raw hash-rate estimate exactly on / one off the clamp bounds (2*prev - 1, 2*prev, 2*prev + 1; prev/2 - 1, prev/2, prev/2 + 1),
+    // with a small difficulty (2^10) so that the +-1 is visible; inputs are chosen backwards from the estimate
+    {
+        let c = d.consensus();
+        let compact = 0x1f40_0000u32; // target 2^246: difficulty 1024
+        let diff = compact_to_difficulty(compact);
+        for (upper, delta) in [(true, -1i64), (true, 0), (true, 1), (false, -1), (false, 0), (false, 1)] {
+            let len = r.range(900, 1100);
+            let dur_s = r.range(12_000, 16_000);
+            let mut uncles = r.range(20, 40);
+            let mut prev = None;
+            for _ in 0..200 {
+                let hps = (&diff * U256::from(len + uncles) / U256::from(dur_s)).0[0] as i64;
+                if upper {
+                    // hps = 2 * prev + delta
+                    if hps - delta > 2 && (hps - delta) % 2 == 0 {
+                        prev = Some(((hps - delta) / 2) as u64);
+                        break;
+                    }
+                    uncles += 1;
+                } else {
+                    // hps = prev / 2 + delta (prev even)
+                    if hps - delta >= 1 {
+                        prev = Some((2 * (hps - delta)) as u64 + r.below(2));
+                        break;
+                    }
+                    uncles += 1;
+                }
+            }
+            let number = r.range(0, 100);
+            let rew = scheduled(&d, number);
+            let i = NextIn { number, start: number * 1000, len, base: rew / len, rem: rew % len, prev_hr: U256::from(prev.unwrap_or(1)), compact, uncles, ms: dur_s * 1000 + r.below(1000) };
+            next_record(out, id, &d, &c, &i, "hr-edge");
+        }
+    }
     // the schedule runs out after 64 halvings
     for (p, number) in [(d.clone(), 64 * d.halving - 1), (variants[3].clone(), 64 * 4 - 1), (variants[3].clone(), 65 * 4 - 1)].into_iter().take(if level > 0 { 3 } else { 1 }) {
         let c = p.consensus();
